@@ -156,9 +156,9 @@ def limit_checks(ctx):
     prof.values.update({"a": 7.5, "b": -12})
     prof.rev = {wb.canon(v): k for k, v in prof.values.items()}
     ops = []
-    for r in (-2, -1, MAX_ROW_COUNT - 1 if not ctx.quick else None, MAX_ROW_COUNT, MAX_ROW_COUNT + 1):
-        if r is None:
-            continue
+    # (growth to the last legal row - a table of 10^6 rows - is exercised by C01's thorough tier, which reads the file back; a trace
+    # whose every event carries a 10^6-row grid is beyond what TLC validates in an hour, so the positions here are the refused ones)
+    for r in (-2, -1, MAX_ROW_COUNT, MAX_ROW_COUNT + 1):
         ops.append({"op": "write", "h": 1, "s": 1, "t": 1, "r": r + 1, "c": 1, "v": "a"})
         for kind in ("style", "border"):
             ops.append({"op": "touch", "h": 1, "s": 1, "t": 1, "r": r + 1, "c": 1, "kind": kind})
